@@ -484,3 +484,147 @@ def _rooted_in_temporary(u, e, is_ref, depth=0):
             return None
         return _rooted_in_temporary(u, kids(e)[0], is_ref, depth + 1)
     return None
+
+
+# ------------------------------------------------------------------------------------------------
+# 8. references / iterators into a container that is grown while they are still used
+# ------------------------------------------------------------------------------------------------
+ELEM_ACCESS = {"operator[]", "at", "front", "back", "begin", "end", "cbegin", "cend", "data", "rbegin", "rend"}
+INVALIDATING = {"push_back", "emplace_back", "insert", "emplace", "resize", "reserve", "assign", "clear", "erase",
+                "pop_back", "shrink_to_fit", "operator=", "swap"}
+GROWABLE = ("std::vector<", "std::deque<", "std::basic_string<", "std::__cxx11::basic_string<")
+
+
+def invalidation(chk, units, scope=None):
+    rule = "R-LIFE.inval"
+    chk.rule(rule, "a local reference / iterator / pointer bound to an element of a growable container is not used "
+                   "after a call that may reallocate or erase in that same container (push_back, insert, resize, "
+                   "erase, assignment, ...) - on any CFG path")
+    nrefs = 0
+    for u in units:
+        getters = getter_table(u)
+        for f in u.funcs:
+            if f.dependent or not f.in_repo() or f.cfg is None:
+                continue
+            if scope and not scope(f):
+                continue
+            P = None
+            cands = []
+            for n in f.all_nodes():
+                if n["k"] != "VarDecl" or not kids(n):
+                    continue
+                t = u.types[n["t"]]
+                if not (t.endswith("&") or "__normal_iterator<" in t or t.endswith("*")):
+                    continue
+                init = strip(kids(n)[0])
+                while init is not None and init["k"] in CTOR_KINDS and len(kids(init)) == 1:
+                    init = strip(kids(init)[0])
+                ci = call_info(u, init) if init is not None and init["k"] in CALL_KINDS else None
+                if ci is None or ci.decl is None or ci.kind != "member" or ci.obj is None:
+                    continue
+                if ci.decl["name"] not in ELEM_ACCESS or not ci.decl.get("recqn", "").startswith(GROWABLE):
+                    continue
+                if P is None:
+                    P = Paths(u, f, getters)
+                cpath = P.path(ci.obj)
+                if cpath is None or cpath[0] == "tmp":
+                    continue
+                cands.append((n, cpath))
+            if not cands:
+                continue
+            g = CFG(f)
+            for decl, cpath in cands:
+                nrefs += 1
+                # invalidating calls on the same container, uses of the reference
+                kills, uses = [], []
+                for b in g.blocks:
+                    for i, x in enumerate(g.elements(b)):
+                        if x["k"] == "DeclRefExpr" and x.get("d") == decl["id"]:
+                            uses.append((b, i, x))
+                        ci = call_info(u, x) if x["k"] in CALL_KINDS else None
+                        if ci and ci.decl is not None and ci.kind == "member" and ci.obj is not None and \
+                                ci.decl["name"] in INVALIDATING and not ci.decl.get("const") and \
+                                ci.decl.get("recqn", "").startswith(GROWABLE) and P.path(ci.obj) == cpath:
+                            kills.append((b, i, x))
+                dpos = g.position(decl["id"])
+                bad = None
+                for (kb, ki, kn) in kills:
+                    # the call must be reachable after the reference was bound
+                    if dpos is not None and not (kb == dpos[0] and ki > dpos[1]) and kb not in g.reachable(
+                            start=dpos[0]) - {dpos[0]} and not (kb == dpos[0] and g.path(g.succ[kb][0], kb)
+                                                               if g.succ[kb] else False):
+                        continue
+                    after = set()
+                    for sblk in g.succ[kb]:
+                        after |= g.reachable(start=sblk)
+                    for (ub, ui, un) in uses:
+                        later = (ub == kb and ui > ki) or (ub in after)
+                        # re-binding in a loop: the declaration itself is re-executed before the use
+                        if later and ub in after and dpos is not None and _rebinds_between(g, kb, ub, ui, dpos):
+                            later = (ub == kb and ui > ki)
+                        if later:
+                            bad = (kn, un)
+                            break
+                    if bad:
+                        break
+                if bad:
+                    kn, un = bad
+                    chk.bad(rule, f.loc(un), f.pqn, "invalidated:%s" % decl.get("n"),
+                            "'%s' refers into a container that may be reallocated / erased by the call at line %s and is "
+                            "used afterwards (line %s): dangling reference" % (decl.get("n"), kn.get("l"), un.get("l")),
+                            witness=dict(instantiation=f.qn, unit=u.name, bound_at=decl.get("l"), call=kn.get("l")))
+    chk.ok(rule, "include/bspline, examples", "%d references / iterators into growable containers: none used after an "
+           "invalidating call" % nrefs, key="inval")
+    return nrefs
+
+
+def _rebinds_between(g, kb, ub, ui, dpos):
+    """Every path from the invalidating call's block to the use passes the (re-executed) declaration."""
+    if dpos[0] == ub and dpos[1] < ui:
+        # same block: the declaration precedes the use in that block
+        return True
+    for sblk in g.succ[kb]:
+        if g.path(sblk, ub, cut_blocks=[dpos[0]]) is not None and sblk != dpos[0]:
+            return False
+        if sblk == ub and dpos[0] != ub:
+            return False
+    return True
+
+
+# ------------------------------------------------------------------------------------------------
+# 9. function-local statics frozen at the first call
+# ------------------------------------------------------------------------------------------------
+def frozen_statics(chk, units, scope=None):
+    rule = "R-EFF.frozen"
+    chk.rule(rule, "a function-local static (even a const one) is not initialised from the enclosing function's "
+                   "parameters or locals: it would keep the value of the FIRST call for every later call")
+    n_static = 0
+    for u in units:
+        for f in u.funcs:
+            if f.dependent or not f.in_repo():
+                continue
+            if scope and not scope(f):
+                continue
+            params = {p["id"] for p in f.decl["params"]}
+            locals_ = {n["id"] for n in f.all_nodes() if n["k"] == "VarDecl" and not n.get("static")}
+            for n in f.all_nodes():
+                if n["k"] != "VarDecl" or not n.get("static"):
+                    continue
+                n_static += 1
+                dep = None
+                for x in walk(n):
+                    if x["k"] == "DeclRefExpr" and (x.get("d") in params or x.get("d") in locals_):
+                        dep = x.get("n")
+                        break
+                    if x["k"] == "CXXThisExpr":
+                        dep = "this"
+                        break
+                if dep:
+                    chk.bad(rule, f.loc(n), f.pqn, "frozen-static:%s" % n.get("n"),
+                            "static local '%s' is initialised from '%s' of the enclosing function: later calls with "
+                            "other arguments silently reuse the first call's value" % (n.get("n"), dep),
+                            witness=dict(instantiation=f.qn, unit=u.name))
+                else:
+                    chk.ok(rule, f.loc(n), "%s: static '%s' has a call-independent initialiser" % (f.pqn, n.get("n")),
+                           key=(f.pkey, n.get("l"), n.get("n")))
+    return n_static
